@@ -306,6 +306,8 @@ def into_iter(ex, v):
             return v
         if isinstance(tgt, Enum) and tgt.base == 'Option':
             return ListIter([Ref(tgt.fields, 0, v.mut)] if tgt.variant == 'Some' else [])
+        if isinstance(tgt, (Agg, Enum)) and ex.find_impl('Iterator', tgt.base, 'next') is not None:
+            return v          # `&mut I` where I is a crate iterator
     if isinstance(v, SliceRef):
         return ListIter([Ref(v.items, i) for i in range(v.lo, v.hi)])
     if hasattr(v, 'into_iter_values'):
